@@ -122,7 +122,9 @@ Pat(tv, o) ==
   ELSE IF tv.g \in {"ptr", "iface"} THEN (IF tv.nil THEN Leaf("null", "") ELSE Pat(tv.a[1], o))   \* "a nil pointer anywhere encodes as null"
   ELSE IF tv.g = "slice" THEN
        (IF tv.byt THEN (IF tv.nil THEN AnyP
-                        ELSE IF o.bytes = 0 THEN Leaf("str", tv.s) ELSE IF o.bytes = 1 THEN Leaf("str", tv.b64) ELSE ArrPat(tv, o))
+                        \* asarr: the as-implemented reading of alt.Decompose for a NAMED byte slice type (array of numbers)
+                        ELSE IF o.bytes = 0 THEN [p |-> "leaf", t |-> "str", s |-> tv.s, asarr |-> ArrPat(tv, o)]
+                        ELSE IF o.bytes = 1 THEN [p |-> "leaf", t |-> "str", s |-> tv.b64, asarr |-> ArrPat(tv, o)] ELSE ArrPat(tv, o))
         ELSE IF tv.nil THEN [p |-> "nilarr"] ELSE ArrPat(tv, o))
   ELSE IF tv.g = "array" THEN ArrPat(tv, o)
   ELSE IF tv.g = "map" THEN
@@ -167,6 +169,7 @@ Dev(pat, tr, d) ==
   \* as-implemented reading (pretty's SEN writer): a string whose text reads as a literal or a number is written bare and
   \* re-read as that literal / number with the same text
   ELSE IF pat.p = "leaf" /\ pat.t = "str" /\ tr.t \in {"bool", "num"} /\ tr.s = pat.s THEN <<[w |-> "as-implemented:sen-bare-literal", d |-> d]>>
+  ELSE IF pat.p = "leaf" /\ "asarr" \in DOMAIN pat /\ Match(pat.asarr, tr) THEN <<[w |-> "as-implemented:bytes-as-array", d |-> d]>>
   ELSE IF pat.p = "leaf" /\ "s64" \in DOMAIN pat /\ tr.t = "num" /\ tr.s = pat.s64 THEN <<[w |-> "as-implemented:float32-widened", d |-> d]>>
   ELSE IF pat.p \in {"leaf", "nilarr", "nilobj"} THEN <<[w |-> IF pat.p = "leaf" /\ tr.t = pat.t THEN "value" ELSE <<"type", tr.t>>, d |-> d]>>
   ELSE IF pat.p = "arr" THEN (IF tr.t # "arr" THEN <<[w |-> <<"type", tr.t>>, d |-> d]>>
